@@ -1,6 +1,7 @@
 package props
 
 import (
+	"github.com/Factom-Asset-Tokens/factom"
 	"pegverif/drive"
 	"pegverif/fake"
 	"pegverif/kit"
@@ -16,6 +17,47 @@ type Coverage struct {
 	Build func(b *drive.Builder)
 	// Interesting reports whether height h deserves per-statement treatment.
 	Interesting func(h uint32) bool
+	// ImageStride, if set, thins the crash points of height h to every n-th operation (and the last ones before COMMIT).
+	ImageStride func(h uint32) int
+}
+
+// CoverageLargeBlock: one block whose transaction writes more pages than SQLite keeps in memory (16,000 new address rows
+// with their history rows, several MB against the default 2 MB page cache), so that SQLite writes uncommitted pages into the
+// database file before COMMIT: crash consistency then rests on what the journal on disk holds at that instant.
+func CoverageLargeBlock() Coverage {
+	e := drive.EraStage(drive.StPIP10)
+	e.Name = "pip10-large-block"
+	big := e.Base + 6
+	return Coverage{Name: "large-block", Era: e, Interesting: func(h uint32) bool { return h == big },
+		ImageStride: func(h uint32) int {
+			if h == big {
+				return 25000
+			}
+			return 1
+		},
+		Build: func(b *drive.Builder) {
+			FundStd(b) // Base+1..Base+4
+			g := drive.BlockSpec{Rates: R1(), OPRPayTo: kit.AddrStr(KM)}
+			b.Add(g) // Base+5
+			var tx []fake.Entry
+			n := uint32(0)
+			for i := 0; i < 400; i++ {
+				t := kit.Tx{From: AddrA, Asset: "pUSD", Amount: 40}
+				for j := 0; j < 40; j++ {
+					n++
+					var a factom.FAAddress
+					a[0], a[1], a[2], a[3], a[31] = 0xbb, byte(n>>16), byte(n>>8), byte(n), 0x01
+					t.To = append(t.To, kit.Out{Addr: a, Amount: 1})
+				}
+				tx = append(tx, b.Tx(KA, t))
+			}
+			if b.Next() != big {
+				panic("harness: large-block coverage misaligned")
+			}
+			b.Add(drive.BlockSpec{Rates: R2(), OPRPayTo: kit.AddrStr(KM), TX: tx}) // Base+6
+			b.Add(g)
+			b.Add(g)
+		}}
 }
 
 const cb = drive.B // 288
